@@ -34,13 +34,18 @@ def state_tla(st, qnames):
     net = _fn((_job(k), tla(list(v))) for k, v in sorted(st["net"].items()))
     rhl = NOPOINT if st["rhl"] is None else st["rhl"]
     rhb = NOPOINT if st.get("rhbase") is None else st["rhbase"]
+    toh = "{" + ", ".join('<<%s, %d>>' % (tla(i[0]), i[1]) for i in st.get("tohold", [])) + "}"
+    hp = NOPOINT if st.get("holdpt") is None else st["holdpt"]
+    sp = NOPOINT if st.get("stop") is None else st["stop"]
     fut = "[" + ", ".join("%s |-> %d" % (t, int(v)) for t, v in sorted(st["futseen"].items())) + "]"
-    return ("[pool |-> %s, rhl |-> %d, rhbase |-> %d, q |-> %s, cmds |-> %s, acks |-> %s, jobs |-> %s, net |-> %s, stopped |-> %s, futseen |-> %s, maxfut |-> %d]"
-            % (pool, rhl, rhb, q, cmds, acks, jobs, net, tla(st["stopped"]), fut, int(st["maxfut"])))
+    return ("[pool |-> %s, rhl |-> %d, rhbase |-> %d, q |-> %s, cmds |-> %s, acks |-> %s, jobs |-> %s, net |-> %s, stopped |-> %s, futseen |-> %s, maxfut |-> %d, tohold |-> %s, holdpt |-> %d, stop |-> %d]"
+            % (pool, rhl, rhb, q, cmds, acks, jobs, net, tla(st["stopped"]), fut, int(st["maxfut"]), toh, hp, sp))
 
 def step_tla(s, qnames):
     ev, arg = s["ev"], s["arg"]
-    if ev == "QueueIfReady":
+    if ev in ("CmdHoldPoint", "CmdStopPoint"):
+        a = str(int(arg))
+    elif ev in ("QueueIfReady", "CmdHold", "CmdRelease"):
         a = '<<%s, %d>>' % (tla(arg[0]), arg[1])
     elif ev in ("EnvLaunch", "EnvJobStep", "SubmitCallback", "Deliver"):
         a = _jid(arg)
@@ -75,4 +80,5 @@ CONSTANTS
   SubmitFail <- MT_SubmitFail
   Faults <- MT_Faults
   StopAt <- MT_Stop
+  CmdBudget = 99
 """
